@@ -369,6 +369,8 @@ def drive_handles(run, cases: list[dict], variants: list[dict]):
             trace = [lab.first_record()]
             for req in sorted(by_v[key], key=lambda r: (len(r), r)):
                 trace.append(lab.query(req, empty_as_none=(i % 2 == 0)))
+                run.count('md_answers_nonempty', int(bool(trace[-1]['md']['resp'])))
+                run.count('ctx_answers_nonempty', int(bool(trace[-1]['ctx']['resp'])))
                 if req:
                     run.distinct_traces.add(('h', key, tuple(req)))
         finally:
@@ -398,6 +400,7 @@ def drive_texts(run, cases: list[dict]):
             trace = [lab.first_record(c['p'])]
             for f in sorted(filters[key], key=lambda f: json.dumps(f, sort_keys=True)):
                 trace.append(lab.query(f))
+                run.count('text_answers_nonempty', int(bool(trace[-1]['a']['resp'])))
                 if c['texts']:
                     run.distinct_traces.add(('t', key, json.dumps(f, sort_keys=True)))
             traces.append(trace)
@@ -439,8 +442,8 @@ def check(run, replay_path=None):
 
     # ---- part 1: handle selection
     cases, variants = cases_of(run, run.pick('Query_h_quick.cfg', 'Query_h.cfg'))
-    n_req = run.pick(1 + 9 + 81 + 729, 1 + 11 + 121 + 1331)
-    n_var = run.pick(8, 18)
+    n_req = run.pick(1 + 8 + 64 + 512, 1 + 11 + 121 + 1331)
+    n_var = run.pick(4, 18)
     if len(cases) != n_req * n_var or len(variants) != n_var:
         raise MachineryError(f'handle domain: {len(cases)} cases / {len(variants)} variants, expected '
                              f'{n_req} x {n_var}')
@@ -455,7 +458,7 @@ def check(run, replay_path=None):
 
     # ---- part 2: localized texts
     cases, _ = cases_of(run, run.pick('Query_t_quick.cfg', 'Query_t.cfg'))
-    n_store = run.pick(14, 64)
+    n_store = run.pick(8, 46)
     n_filter = run.pick(4 * 3 * 4 * 4 * 3, 5 * 4 * 4 * 6 * 4)
     if len(cases) != n_store * (n_filter + 1):
         raise MachineryError(f'text domain: {len(cases)} cases, expected {n_store} x ({n_filter} + 1)')
@@ -467,7 +470,7 @@ def check(run, replay_path=None):
     run.sample({'store': t[0]['texts'], 'languages': t[0]['langs']['resp'], 'filter': t[i]['f'],
                 'GetLocalizedText': t[i]['a']['resp']})
     run.count('rejected_clauses', 0)
-    judge(run, traces, replays, run.pick(14, 8))
+    judge(run, traces, replays, run.pick(8, 8))
     run.evaluations = evaluations + calls
     run.note('exhaustive', True)
     run.assumptions += [
